@@ -1,4 +1,6 @@
 
+val implb : bool -> bool -> bool
+
 val negb : bool -> bool
 
 type nat =
@@ -13,6 +15,8 @@ val length : 'a1 list -> nat
 
 val app : 'a1 list -> 'a1 list -> 'a1 list
 
+val sub : nat -> nat -> nat
+
 type positive =
 | XI of positive
 | XO of positive
@@ -26,6 +30,8 @@ type z =
 | Z0
 | Zpos of positive
 | Zneg of positive
+
+val eqb : bool -> bool -> bool
 
 module Nat :
  sig
@@ -74,11 +80,21 @@ val nth : nat -> 'a1 list -> 'a1 -> 'a1
 
 val nth_error : 'a1 list -> nat -> 'a1 option
 
+val rev : 'a1 list -> 'a1 list
+
 val map : ('a1 -> 'a2) -> 'a1 list -> 'a2 list
+
+val fold_left : ('a1 -> 'a2 -> 'a1) -> 'a2 list -> 'a1 -> 'a1
 
 val existsb : ('a1 -> bool) -> 'a1 list -> bool
 
 val forallb : ('a1 -> bool) -> 'a1 list -> bool
+
+val filter : ('a1 -> bool) -> 'a1 list -> 'a1 list
+
+val find : ('a1 -> bool) -> 'a1 list -> 'a1 option
+
+val seq : nat -> nat -> nat list
 
 val ex_keep : (((((nat * n) * z) * z list) * z option) * positive) * bool
 
@@ -234,3 +250,85 @@ val no_ext_def : hier -> bool
 val is_leaf : hier -> nat -> bool
 
 val leaf_op : hier -> op -> bool
+
+type vdecl =
+| VNone
+| VDecl of bool * nat * bool
+
+type skarg =
+| SkNone
+| SkFwd
+| SkConst of bool
+
+type oparg =
+| OpNone
+| OpFwd
+| OpNull
+
+type entry =
+| EImpl of nat
+| EAdapt of nat * skarg * oparg
+
+type slot = { s_cls : nat; s_ov : bool; s_nopt : nat; s_fin : bool;
+              s_ent : entry }
+
+type vtable = slot list
+
+val mk_adapt : bool -> nat -> bool -> nat -> slot -> slot
+
+val declare : bool -> nat -> vdecl -> vtable -> vtable
+
+type chain = (nat * vdecl) list
+
+val build : bool -> chain -> vtable -> vtable
+
+type vres =
+| VBody of nat
+| VEntry of nat * bool
+
+val run_entry : slot -> vres
+
+val split_at : nat -> chain -> (chain * chain) option
+
+val vt_call : bool -> chain -> nat -> vres option
+
+type dstate = ((nat * bool) * bool) option
+
+val upd_st : dstate -> (nat * vdecl) -> dstate
+
+val last_decl : chain -> dstate -> dstate
+
+val vt_ref : chain -> nat -> vres option
+
+val wf_chain : chain -> dstate -> bool
+
+val ext_base : hier -> nat -> nat option
+
+val chain_of : hier -> vdecl list -> nat -> chain
+
+type vop =
+| VBase of op
+| VCallT of nat * nat
+
+val interp_cy :
+  bool -> bool -> hier -> world -> nat -> ostate -> vres -> world * result
+
+val vstep_cy :
+  bool -> bool -> bool -> hier -> vdecl list -> world -> vop ->
+  world * result option
+
+val vstep_py : hier -> vdecl list -> pstate -> vop -> pstate * result option
+
+val vrun_cy :
+  bool -> bool -> bool -> hier -> vdecl list -> world -> vop list -> result
+  list
+
+val vrun_py : hier -> vdecl list -> pstate -> vop list -> result list
+
+val agree_at : hier -> vdecl list -> nat -> bool
+
+val list_eqb : nat list -> nat list -> bool
+
+val shape_at : hier -> nat -> bool
+
+val wf_vt : hier -> vdecl list -> bool
